@@ -521,4 +521,4 @@ class Section(Entity):
     def _change_id(_, grp):
         if "entity_id" in grp.attrs:
             id_ = util.create_id()
-            grp.attrs.modify("entity_id", np.string_(id_))
+            grp.attrs.modify("entity_id", np.bytes_(id_))
